@@ -110,6 +110,12 @@ type c13Outcome struct {
 
 // c13Check runs every C13 monitor on one input.
 func c13Check(c *run.Ctx, id string, data []byte, gname string) (out c13Outcome, ok bool) {
+	return c13CheckCap(c, id, data, gname, 64*1024, c13MaxExpansion)
+}
+
+// c13CheckCap is c13Check with the workload's own bounds (input bytes, expanded nodes) as parameters: the mutation
+// and fuzzing workloads keep inputs small so that they run many, the scale phase lifts both bounds.
+func c13CheckCap(c *run.Ctx, id string, data []byte, gname string, maxBytes, maxExpansion int) (out c13Outcome, ok bool) {
 	viol := func(what string, extra map[string]any) (c13Outcome, bool) {
 		m := map[string]any{"what": what, "generator": gname, "input": clip(string(data), 8000), "input_hex_prefix": fmt.Sprintf("%x", data[:min(len(data), 64)])}
 		for k, v := range extra {
@@ -118,7 +124,7 @@ func c13Check(c *run.Ctx, id string, data []byte, gname string) (out c13Outcome,
 		c.Violation(id, m)
 		return out, false
 	}
-	if len(data) > 64*1024 {
+	if len(data) > maxBytes {
 		return c13Outcome{class: "dropped"}, true
 	}
 	// Independent view of the input: yaml.Node, expansion bound.
@@ -127,13 +133,13 @@ func c13Check(c *run.Ctx, id string, data []byte, gname string) (out c13Outcome,
 	var plain *doc.Node
 	if nodeErr == nil {
 		size, cyc := expansionSize(&node, map[*yaml.Node]int{}, map[*yaml.Node]bool{})
-		if !cyc && size > c13MaxExpansion {
+		if !cyc && size > maxExpansion {
 			c.Count("inputs_dropped_by_expansion_bound", 1)
 			return c13Outcome{class: "dropped"}, true
 		}
 		if !cyc {
 			if g, err := doc.FromYAMLInputNode(&node); err == nil {
-				if pl, err := doc.ResolveMerges(g, 4*c13MaxExpansion); err == nil {
+				if pl, err := doc.ResolveMerges(g, 4*maxExpansion); err == nil {
 					plain = pl
 				}
 			}
@@ -574,6 +580,11 @@ func checkC13(c *run.Ctx) {
 	// (3b) long step sequences with many fallbacks (every one must be reported)
 	c.Parallel("many", c.N(300, 5000), func(i int, r *rand.Rand) {
 		n := []int{9, 10, 11, 12, 13, 20, 40, 100}[r.IntN(8)]
+		if i%23 == 5 {
+			// hundreds of fallbacks in one list: each one is kept and each one is reported, the 101st like the first
+			n = []int{150, 260, 520, 1200}[r.IntN(4)]
+			c.Count("documents_with_more_than_100_entries", 1)
+		}
 		l := doc.L()
 		for k := 0; k < n; k++ {
 			switch r.IntN(5) {
@@ -605,6 +616,32 @@ func checkC13(c *run.Ctx) {
 			c.Count("outcome_"+out.class, 1)
 			c.Max("max_fallbacks_in_one_document", int64(out.unknowns))
 		}
+	})
+	// (3c) scale: documents of tens of thousands of entries, beyond 1 MiB of text (about 10 MiB at the top of the
+	// thorough tier), as block YAML and as JSON, with a fallback every few hundred entries: a usable result holds one
+	// step per entry however long the input is
+	c.Phase("scale", func() {
+		sizes := []int{20000, 45000, 150000}[:c.N(2, 3)]
+		c.Parallel("scale", len(sizes)*2, func(i int, r *rand.Rand) {
+			d := bigStepsDoc(r, sizes[i/2], 24, 307)
+			txt := string(doc.ToJSON(d))
+			if i%2 == 0 {
+				if t, err := doc.ToYAML(d, doc.YAMLOpts{}); err == nil {
+					txt = t
+				}
+			}
+			id := run.CaseID("scale", i)
+			jr.write("", id, txt)
+			out, ok := c13CheckCap(c, id, []byte(txt), "scale", 64<<20, 64<<20)
+			jr.done(id)
+			c.Eval(1)
+			if ok {
+				c.Count("outcome_"+out.class, 1)
+				c.Count("scale_documents", 1)
+				c.Max("largest_document_bytes", int64(len(txt)))
+				c.Max("max_fallbacks_in_one_document", int64(out.unknowns))
+			}
+		})
 	})
 	// (4) anchor/alias/merge graphs with cycles (the C07 generator) embedded as a step and as a top-level extra
 	ng := c.N(6000, 300000)
